@@ -432,6 +432,9 @@ func fileSetRuns(modes []string) []*fsRun {
 		}
 		all.Allowed[filepath.Join("fsq", "a_gen.go")] = "fsq/a.go"
 		runs = append(runs, all)
+		// the second package on its own
+		other := &fsRun{Desc: "package fsq alone", Mode: mode, Args: cffArgs(mode, "./fsq"), Allowed: map[string]string{filepath.Join("fsq", "a_gen.go"): "fsq/a.go"}, Default: true}
+		runs = append(runs, other)
 		// spellings of an explicit output path: the path is taken as given, whatever characters it contains
 		spell := []string{"o,v2/a_gen.go", "with space/a gen.go", "k=v/a_gen.go", "a=b=c.go", "\u00fcn\u00ef/a_gen.go", ".hidden/a_gen.go", "-dash/-a_gen.go", "a,b,c.go", "deep/er/still/a_gen.go", "a_gen.go.txt"}
 		for si, sp := range spell {
@@ -491,6 +494,11 @@ func fileSetRuns(modes []string) []*fsRun {
 }
 
 func execFileSets(cffBin, build, repo string, runs []*fsRun) {
+	execFileSetsAt(cffBin, filepath.Join(build, "fs"), repo, runs)
+}
+
+// execFileSetsAt runs every invocation in a fresh copy of the tree under dir.
+func execFileSetsAt(cffBin, dir, repo string, runs []*fsRun) {
 	var wg sync.WaitGroup
 	sem := make(chan struct{}, mc.Workers())
 	for i, r := range runs {
@@ -499,7 +507,7 @@ func execFileSets(cffBin, build, repo string, runs []*fsRun) {
 			defer wg.Done()
 			sem <- struct{}{}
 			defer func() { <-sem }()
-			root := filepath.Join(build, "fs", fmt.Sprintf("r%03d", i))
+			root := filepath.Join(dir, fmt.Sprintf("r%03d", i))
 			r.exec(cffBin, root, repo)
 			os.RemoveAll(root)
 		}(i, r)
